@@ -21,7 +21,9 @@
 //!
 //! Oracle keys (independent of the Lean model):
 //!   cli/panic, cli/timeout                     the call panicked / did not return (killed child)
-//!   cli/unreadable-query-file-never-returns    the query file is a directory: `lines()` yields the read error for ever
+//!   cli/unreadable-query-file-never-returns    the query file is a directory and the call does not return (`lines()` yields the
+//!                                              read error for ever; repaired by fix fffeda5: the path is refused like a missing
+//!                                              file — the key fires again if the hang returns)
 //!   cli/valid-arguments-refused                `validate` (or the dispatch) refuses a documented combination
 //!   cli/newline-delimited-without-chunksize-refused   `--newline-delimited` without `--chunksize`: validated, then
 //!                                              InternalError("invalid argument combination should have been caught…")
@@ -694,10 +696,13 @@ pub fn cli_stream(ctx: &mut Ctx, profile: Profile, tag: u64) {
             }
         }
         cli_case(ctx, fx, &root, &CliCase { chunksize: Some(1), newline: true, cfg: CfgFile::Missing, file: QFile::Missing, run_cfg: None, branch: "cli_corpus_bad_config_file" });
-        // the query file is a directory: run_json reports the read error; run_newline_json reads the error for ever
+        // the query file is a directory: refused like a missing file (fix fffeda5; run_newline_json used to read the
+        // read error for ever: `--query-file <a directory> --chunksize 2 --newline-delimited` never returned)
         cli_case(ctx, fx, &root, &good(None, false, QFile::Dir, "cli_corpus_query_file_is_a_directory"));
         cli_case(ctx, fx, &root, &good(Some(2), true, QFile::Dir, "cli_corpus_query_file_is_a_directory"));
         cli_case(ctx, fx, &root, &good(Some(i64::MAX), true, QFile::Dir, "cli_corpus_query_file_is_a_directory"));
+        cli_case(ctx, fx, &root, &good(Some(1), true, QFile::Dir, "cli_corpus_query_file_is_a_directory"));
+        cli_case(ctx, fx, &root, &good(None, true, QFile::Dir, "cli_corpus_query_file_is_a_directory"));
         // blank lines only, junk only, no trailing newline, CRLF, invalid UTF-8
         cli_case(ctx, fx, &root, &good(Some(2), true, QFile::Bytes(b"\n\n\n".to_vec()), "cli_corpus_lines"));
         cli_case(ctx, fx, &root, &good(Some(1), true, QFile::Bytes(b"{oops\nnot json\n".to_vec()), "cli_corpus_lines"));
